@@ -82,24 +82,24 @@ type c20KV struct {
 var c20Sections = []*c20Section{
 	{name: "threshold", key: configuration.ResourceThresholdConfigKey,
 		typ: reflect.TypeOf(slov1alpha1.ResourceThresholdStrategy{}), cfgTyp: reflect.TypeOf(configuration.ResourceThresholdCfg{}),
-		def: func() any { return sloconfig.DefaultResourceThresholdStrategy() },
-		get: func(s *slov1alpha1.NodeSLOSpec) any { return s.ResourceUsedThresholdWithBE },
+		def:   func() any { return sloconfig.DefaultResourceThresholdStrategy() },
+		get:   func(s *slov1alpha1.NodeSLOSpec) any { return s.ResourceUsedThresholdWithBE },
 		wrong: []c20KV{{"enable", "yes"}, {"cpuSuppressThresholdPercent", "sixty"}, {"cpuEvictPolicy", 5}}},
 	{name: "qos", key: configuration.ResourceQOSConfigKey,
 		typ: reflect.TypeOf(slov1alpha1.ResourceQOSStrategy{}), cfgTyp: reflect.TypeOf(configuration.ResourceQOSCfg{}),
 		// the controller's built-in default for resource QoS is "nothing set" (the per-class defaults are applied by the node agent)
-		def: func() any { return &slov1alpha1.ResourceQOSStrategy{} },
-		get: func(s *slov1alpha1.NodeSLOSpec) any { return s.ResourceQOSStrategy },
+		def:   func() any { return &slov1alpha1.ResourceQOSStrategy{} },
+		get:   func(s *slov1alpha1.NodeSLOSpec) any { return s.ResourceQOSStrategy },
 		wrong: []c20KV{{"lsClass", 7}, {"beClass", map[string]any{"cpuQOS": map[string]any{"enable": 3}}}, {"policies", "x"}}},
 	{name: "cpuburst", key: configuration.CPUBurstConfigKey,
 		typ: reflect.TypeOf(slov1alpha1.CPUBurstStrategy{}), cfgTyp: reflect.TypeOf(configuration.CPUBurstCfg{}),
-		def: func() any { return sloconfig.DefaultCPUBurstStrategy() },
-		get: func(s *slov1alpha1.NodeSLOSpec) any { return s.CPUBurstStrategy },
+		def:   func() any { return sloconfig.DefaultCPUBurstStrategy() },
+		get:   func(s *slov1alpha1.NodeSLOSpec) any { return s.CPUBurstStrategy },
 		wrong: []c20KV{{"cpuBurstPercent", "x"}, {"policy", 5}, {"sharePoolThresholdPercent", true}}},
 	{name: "system", key: configuration.SystemConfigKey,
 		typ: reflect.TypeOf(slov1alpha1.SystemStrategy{}), cfgTyp: reflect.TypeOf(configuration.SystemCfg{}),
-		def: func() any { return sloconfig.DefaultSystemStrategy() },
-		get: func(s *slov1alpha1.NodeSLOSpec) any { return s.SystemStrategy },
+		def:   func() any { return sloconfig.DefaultSystemStrategy() },
+		get:   func(s *slov1alpha1.NodeSLOSpec) any { return s.SystemStrategy },
 		wrong: []c20KV{{"minFreeKbytesFactor", true}, {"schedFeatures", []any{1}}, {"watermarkScaleFactor", "9"}}},
 	{name: "hostapp", key: configuration.HostApplicationConfigKey,
 		cfgTyp: reflect.TypeOf(configuration.HostApplicationCfg{}),
@@ -858,8 +858,8 @@ func c20Expect(names []string, layers []c20Leaves) c20Want {
 // the workload
 
 type c20Node struct {
-	node *corev1.Node
-	prev map[string]c20Leaves // per section: leaves delivered after the previous update (strategy sections)
+	node     *corev1.Node
+	prev     map[string]c20Leaves // per section: leaves delivered after the previous update (strategy sections)
 	prevApps []string
 	prevSpec *slov1alpha1.NodeSLOSpec
 	havePrev bool
@@ -869,6 +869,7 @@ type c20SecState struct {
 	eff       *c20Eff
 	lastText  string
 	lastState string // absent | empty | partial | full | malformed
+	prevState string // state of the update before
 	hasText   bool
 }
 
@@ -882,7 +883,7 @@ func TestVerifC20Layering(t *testing.T) {
 			defaults[sec.name] = c20FlattenAny(sec.def())
 		}
 	}
-	kit.Run(t, kit.Config{Property: "C20", Unit: "layering", Quick: 1500, Thorough: 40000,
+	kit.Run(t, kit.Config{Property: "C20", Unit: "layering", Quick: 3000, Thorough: 40000,
 		Rule: "one case = 2-6 ConfigMap updates through the real syncConfig, after each update getNodeSLOSpec for 3-5 nodes; per update each of the five sections is independently absent / {} / partial / full / malformed (truncated, wrong type, garbage) / unchanged text; 0-4 node entries per section with selectors over a 3x3 label universe (nil, empty, matchLabels, In/NotIn/Exists/DoesNotExist, 25% literal duplicates of an earlier entry's selector); typed strategies with a random subset of leaves, per-layer sentinel bands; distinct = (section, state, previous state, #entries, #matching entries class, sources of the expected leaves); non-trivial = the case had a malformed-after-good transition AND a node matched by >= 2 entries that differ"},
 		func(c *kit.Case) {
 			r := c.R
@@ -921,7 +922,7 @@ func TestVerifC20Layering(t *testing.T) {
 				stepDesc := ""
 				for _, sec := range c20Sections {
 					s := st[sec.name]
-					prevState := s.lastState
+					s.prevState = s.lastState
 					state := c20States[r.Weighted(13, 8, 34, 10, 22, 13)]
 					if state == "same" {
 						state = s.lastState
@@ -993,7 +994,6 @@ func TestVerifC20Layering(t *testing.T) {
 						c.Op("step %d %s state=absent", step, sec.name)
 					}
 					stepDesc += fmt.Sprintf("%s:%s(%d) ", sec.name, state, len(s.eff.entries))
-					_ = prevState
 				}
 				if r.Pct(30) { // unrelated keys of the same ConfigMap
 					data[configuration.ColocationConfigKey] = kit.Pick(r, []string{`{"enable":true}`, "invalid_content", "{}"})
@@ -1041,11 +1041,17 @@ func TestVerifC20Layering(t *testing.T) {
 						}
 						if sec.typ == nil {
 							got := c20CanonApps(spec.HostApplications)
-							c20CheckApps(c, sec, s.eff, m, got, phase, step, ni, n, &sawDecisiveFirstWins)
-							if malformedNow[sec.name] && n.havePrev && !reflect.DeepEqual(got, n.prevApps) {
+							if malformedNow[sec.name] && n.havePrev {
+								c.Count("keep_old_comparisons", 1)
+								if c20SameApps(got, n.prevApps) {
+									// unchanged by the unparseable update: correct; the layering of this value was decided at the previous update
+									c.Count("sections_ok", 1)
+									continue
+								}
 								c.Report("C20/hostapp/after-malformed/changed", "step %d node-%d labels=%v: host applications changed by an update whose %s text cannot be parsed: before %v, after %v; text=%s",
 									step, ni, n.node.Labels, sec.key, n.prevApps, got, s.lastText)
 							}
+							c20CheckApps(c, sec, s.eff, m, got, phase, step, ni, n, &sawDecisiveFirstWins)
 							n.prevApps = got
 							continue
 						}
@@ -1066,9 +1072,13 @@ func TestVerifC20Layering(t *testing.T) {
 						}
 						srcMask := map[string]bool{}
 						nMis := 0
+						// An unparseable update that left the delivered section exactly as it was is
+						// correct by the statement's last clause; whether that unchanged value is the
+						// right layering was already decided (and reported) at the previous update.
+						unchangedAfterMalformed := malformedNow[sec.name] && n.havePrev && reflect.DeepEqual(got, n.prev[sec.name])
 						mismatch := func(path, wantSrc, wantVal string, gotVal string, present bool) {
 							nMis++
-							if nMis > 3 {
+							if nMis > 3 || unchangedAfterMalformed {
 								return
 							}
 							cls := c20Classify(s.eff, defaults[sec.name], m, path, gotVal, present, n.prev[sec.name])
@@ -1118,7 +1128,7 @@ func TestVerifC20Layering(t *testing.T) {
 						// literal keep-old check
 						if malformedNow[sec.name] && n.havePrev {
 							c.Count("keep_old_comparisons", 1)
-							if !reflect.DeepEqual(got, n.prev[sec.name]) {
+							if !unchangedAfterMalformed {
 								c.Report("C20/"+sec.name+"/after-malformed/changed", "step %d node-%d labels=%v: section %s delivered to the node changed by an update whose text cannot be parsed.\nbefore: %v\nafter:  %v\ntext=%s",
 									step, ni, n.node.Labels, sec.key, c20Show(n.prev[sec.name]), c20Show(got), s.lastText)
 							}
@@ -1128,7 +1138,7 @@ func TestVerifC20Layering(t *testing.T) {
 						if mc > 2 {
 							mc = 2
 						}
-						c.Seen(sec.name, s.lastState, len(s.eff.entries), mc, srcMask["default"], srcMask["cluster"], srcMask["entry"], len(want.may) > 0, phase)
+						c.Seen(sec.name, s.lastState, s.prevState, len(s.eff.entries), mc, srcMask["default"], srcMask["cluster"], srcMask["entry"], len(want.may) > 0, phase)
 					}
 					// extensions: no extender is registered in this process, nothing may be delivered
 					if len(globalNodeSLOMergedExtender) == 0 && spec.Extensions != nil && len(spec.Extensions.Object) != 0 {
